@@ -462,7 +462,7 @@ def run(ctx):
 
     def bounds(kind, focus, ninv):
         if kind == "pin":
-            return (1, "entry") if ctx.quick else (2, "entry")
+            return (1, "entry") if ctx.quick else (2, "task")
         if kind == "confidence_ties":
             return (1, "task") if ctx.quick else (2, "task")
         # pipeline: invocations 0,1 parse; 2 fit; 3.. predict; last = confidence chunk writer.
